@@ -5,7 +5,8 @@ import scipy.linalg
 
 from algopy import UTPM, Function
 
-numpy_linalg_function_names = ['inv', 'solve', 'eigh', 'eig', 'svd', 'qr', 'cholesky','transpose', 'det']
+numpy_linalg_function_names = ['inv', 'solve', 'eigh', 'eig', 'svd', 'qr', 'cholesky', 'det']
+numpy_function_names = ['transpose']   # numpy.linalg has no transpose
 scipy_linalg_function_names = ['lu']
 
 
@@ -41,6 +42,9 @@ def $function_name(*args, **kwargs):
 
 for function_name in numpy_linalg_function_names:
     exec(function_template.substitute(function_name=function_name, namespace='numpy.linalg'))
+
+for function_name in numpy_function_names:
+    exec(function_template.substitute(function_name=function_name, namespace='numpy'))
 
 for function_name in scipy_linalg_function_names:
     exec(function_template.substitute(function_name=function_name, namespace='scipy.linalg'))
